@@ -383,13 +383,23 @@ Definition cmp_num (op : cmpop) (p q : Z * N) : bool :=
   | OpGe => negb (num_lt p q)
   end.
 
-(* HAVING (agg op n) *)
-Definition having := (aggspec * cmpop * Z)%type.
+(* HAVING (agg op n)  |  HAVING (?k = <iri>)  |  HAVING (?k != <iri>) with ?k a grouping key *)
+Inductive having :=
+| HAgg (a : aggspec) (op : cmpop) (n : Z)
+| HKey (v : var) (ne : bool) (iri : str).
 
 Definition cond_holds (op : cmpop) (n : Z) (o : option term) : bool :=
   match o with
   | Some t => match num_of t with Some p => cmp_num op p (n, 0%N) | None => false end
   | None => false
+  end.
+
+(* RDFterm-equal against an IRI constant; an unbound operand is an error, an
+   error makes the filter false *)
+Definition key_cond (ne : bool) (iri : str) (o : option term) : bool :=
+  match o with
+  | None => false
+  | Some t => if ne then negb (term_eqb t (TI iri)) else term_eqb t (TI iri)
   end.
 
 Fixpoint omap_all {A B} (f : A -> option B) (l : list A) : option (list B) :=
@@ -421,11 +431,14 @@ Definition group_out (gv : list var) (aggs : list (var * aggspec)) (h : option h
   | Some row =>
       match h with
       | None => Some (true, row)
-      | Some (ha, op, n) =>
+      | Some (HAgg ha op n) =>
           match agg_run ha rows with
           | None => None
           | Some o => Some (cond_holds op n o, row)
           end
+      | Some (HKey v ne iri) =>
+          (* translateAggregates: the key variable inside HAVING becomes SAMPLE(?v) *)
+          Some (key_cond ne iri (hd_error (bound (ovals v rows))), row)
       end
   end.
 
@@ -589,14 +602,21 @@ Definition agg_adm (a : aggspec) (rows : list sol) (r : option term) : bool :=
       end
   end.
 
-(* functional value of the aggregates allowed in HAVING (COUNT, SUM, AVG) *)
+(* HAVING on a group: a comparison of an aggregate (COUNT, SUM, AVG: functional)
+   with a constant, or a condition on a grouping key - the value the key has in
+   the solutions of the group (SPARQL 18.2.4.2: the filter sees the key) *)
 Definition having_holds (h : option having) (rows : list sol) : bool :=
   match h with
   | None => true
-  | Some (ha, op, n) =>
+  | Some (HAgg ha op n) =>
       match agg_run ha rows with
       | Some o => cond_holds op n o
       | None => false
+      end
+  | Some (HKey v ne iri) =>
+      match rows with
+      | [] => false
+      | r :: _ => key_cond ne iri (lookup v r)
       end
   end.
 
@@ -689,10 +709,11 @@ Definition wf (c : case) : bool :=
   match c_group c with
   | None => match c_aggs c, c_having c with [], None => true | _, _ => false end
   | Some gv => nodupb N.eqb (gv ++ map fst (c_aggs c))
+               && match c_having c with Some (HKey v _ _) => memb N.eqb v gv | _ => true end
   end.
 
 Definition all_aggs (c : case) : list aggspec :=
-  map snd (c_aggs c) ++ match c_having c with Some (ha, _, _) => [ha] | None => [] end.
+  map snd (c_aggs c) ++ match c_having c with Some (HAgg ha _ _) => [ha] | _ => [] end.
 
 Definition arg_vals (a : aggspec) (input : list sol) : list (option term) :=
   match a_arg a with Some v => ovals v input | None => [] end.
